@@ -149,7 +149,10 @@ pub struct Case {
 
 /// Run a closure calling into the library under test, capturing an unwind.
 pub fn cu<F: FnOnce() -> Out>(f: F) -> Out {
-    match panic::catch_unwind(AssertUnwindSafe(f)) {
+    let prev = set_in_lib(true);
+    let r = panic::catch_unwind(AssertUnwindSafe(f));
+    set_in_lib(prev);
+    match r {
         Ok(o) => o,
         Err(e) => {
             let msg = if let Some(s) = e.downcast_ref::<&'static str>() {
@@ -165,8 +168,25 @@ pub fn cu<F: FnOnce() -> Out>(f: F) -> Out {
 }
 
 /// The environment sets RUST_BACKTRACE=1; a silent hook keeps panics cheap.
+thread_local! {
+    static IN_LIB: std::cell::Cell<bool> = std::cell::Cell::new(false);
+}
+fn set_in_lib(v: bool) -> bool {
+    IN_LIB.with(|c| c.replace(v))
+}
+
+/// The environment sets RUST_BACKTRACE=1; a hook that is silent while a call into the
+/// library under test is in progress keeps expected panics cheap. A panic anywhere else is
+/// a harness bug and is printed.
 pub fn install_silent_panic_hook() {
-    panic::set_hook(Box::new(|_| {}));
+    if std::env::var_os("VERIF_PANIC_VERBOSE").is_some() {
+        return;
+    }
+    panic::set_hook(Box::new(|info| {
+        if !IN_LIB.with(|c| c.get()) {
+            eprintln!("HARNESS PANIC (outside a library call): {}", info);
+        }
+    }));
 }
 
 #[derive(Clone, Debug)]
@@ -196,4 +216,85 @@ impl Eval {
             self.classes.push(c);
         }
     }
+}
+
+/// Expectation for one of the five forms of an operation whose exact (raw-scale,
+/// integer) result is `r` in destination layout `l`.
+/// `form` is "plain" | "checked" | "saturating" | "wrapping" | "overflowing".
+pub fn form_exp(l: crate::layout::L, form: &str, r: &crate::big::Big) -> Exp {
+    let fits = l.fits(r);
+    let wr = l.wrap(r);
+    match form {
+        "checked" => Exp::Is(Out::O(if fits { Some(wr) } else { None })),
+        "saturating" => Exp::Is(Out::V(l.clamp(r))),
+        "wrapping" => Exp::Is(Out::V(wr)),
+        "overflowing" => Exp::Is(Out::F(wr, !fits)),
+        _ => {
+            if fits {
+                Exp::Is(Out::V(wr))
+            } else {
+                Exp::PlainOvf(Out::V(wr))
+            }
+        }
+    }
+}
+
+pub type Outs = Vec<(&'static str, Out)>;
+
+fn panic_msg(e: Box<dyn std::any::Any + Send>) -> String {
+    if let Some(s) = e.downcast_ref::<&'static str>() {
+        s.to_string()
+    } else if let Some(s) = e.downcast_ref::<String>() {
+        s.clone()
+    } else {
+        "<non-string panic payload>".to_string()
+    }
+}
+
+/// Run a sequence of library calls written with `step!`, capturing an unwind of
+/// each call separately without instantiating a closure per call: `f(start, outs)`
+/// performs steps `start..`; a step first pushes `(label, Na)` and then overwrites it
+/// with the value, so after an unwind the last element names the call that panicked.
+pub fn drive(f: &mut dyn FnMut(usize, &mut Outs)) -> Outs {
+    let mut outs: Outs = Vec::with_capacity(24);
+    loop {
+        let start = outs.len();
+        let prev = set_in_lib(true);
+        let r = panic::catch_unwind(AssertUnwindSafe(|| f(start, &mut outs)));
+        set_in_lib(prev);
+        match r {
+            Ok(()) => return outs,
+            Err(e) => {
+                let msg = panic_msg(e);
+                match outs.last_mut() {
+                    Some(last) if outs_len_gt(start, last) => last.1 = Out::P(msg),
+                    _ => {
+                        // unwound before any step was entered: report and stop
+                        outs.push(("<setup>", Out::P(msg)));
+                        return outs;
+                    }
+                }
+                if outs.len() == start {
+                    // defensive: no progress
+                    return outs;
+                }
+            }
+        }
+    }
+}
+#[inline]
+fn outs_len_gt(_start: usize, last: &(&'static str, Out)) -> bool {
+    matches!(last.1, Out::Na)
+}
+
+/// One library call inside a `drive`n sequence.
+#[macro_export]
+macro_rules! step {
+    ($start:ident, $outs:ident, $k:expr, $label:expr, $e:expr) => {
+        if $start <= $k {
+            $outs.push(($label, $crate::Out::Na));
+            let v = $e;
+            $outs.last_mut().unwrap().1 = v;
+        }
+    };
 }
